@@ -140,6 +140,15 @@ class FakeWriter:
     async def drain(self):
         if self.conn["dropped"]:
             raise ConnectionResetError("client went away")
+        if self.conn.get("stalled"):
+            # the peer does not read: the transport's write buffer is full and drain() blocks until it goes away
+            fut = asyncio.get_running_loop().create_future()
+            self.conn.setdefault("stall_futs", []).append(fut)
+            try:
+                await fut
+            except asyncio.CancelledError:
+                raise
+            raise ConnectionResetError("client went away")
         if self.conn.get("slow"):
             await asyncio.sleep(0)
 
@@ -546,12 +555,17 @@ class Harness:
                 raw = data.encode("latin-1") if isinstance(data, str) else bytes(data)
             if not st["eof"]:
                 st["reader"].feed_data(raw)
+        elif op == "stall":
+            st["stalled"] = True
         elif op == "eof":
             if not st["eof"]:
                 st["eof"] = True
                 st["reader"].feed_eof()
         elif op == "drop":
             st["dropped"] = True
+            for fut in st.get("stall_futs", []):
+                if not fut.done():
+                    fut.set_result(None)
             if not st["eof"]:
                 st["eof"] = True
                 st["reader"].set_exception(ConnectionResetError("reset by peer")) if step.get("hard") else st["reader"].feed_eof()
